@@ -14,7 +14,7 @@ import warnings
 import numpy as np
 
 from sim import manager as simmanager
-from sim.kernel import Deadlock, StepCap
+from sim.kernel import Deadlock, SimCrash, StepCap
 from sim.tape import Tape
 from sim.userfuncs import MASKED, canon
 
@@ -77,12 +77,19 @@ def gen_case(tape, tier):
                 k.append({"slice": [a, b, c]})
         return k
 
+    relative = bool(tape.coin(0.25, "relative-folder"))
     for _ in range(nops):
         o = tape.pick(["dump", "dump", "dump", "get", "get", "to_array", "mask", "mask_linear", "index", "bad_get",
-                       "bad_dump", "persist", "reopen", "worker_dump"], "op")
+                       "bad_dump", "persist", "reopen", "worker_dump", "crash"] + (["chdir", "chdir"] if relative else []), "op")
         if o in ("dump", "worker_dump"):
             nv += 1
             ops.append({"op": o, "key": key(ext), "value": nv})
+        elif o == "crash":
+            # the process dies inside (before file-system event `at` of) a dump or a persist, possibly tearing a write
+            nv += 1
+            what = tape.pick(["dump", "dump", "persist"], "crash-in")
+            ops.append({"op": "crash_" + what, **({"key": key(ext), "value": nv} if what == "dump" else {}),
+                        "at": tape.choose(7, "crash-at"), "torn": tape.pick([None, None, 1, -1, 20], "torn")})
         elif o == "get":
             ops.append({"op": "get", "key": key(full)})
         elif o == "to_array":
@@ -110,7 +117,8 @@ def gen_case(tape, tier):
             ops.append({"op": "reopen", "exit": bool(tape.coin(0.5, "exit"))})
         else:
             ops.append({"op": o})
-    return {"backend": backend, "full": full, "mask": mask, "ops": ops, "coarse_mtime": bool(tape.coin(0.5, "coarse-mtime"))}
+    return {"backend": backend, "full": full, "mask": mask, "ops": ops, "coarse_mtime": bool(tape.coin(0.5, "coarse-mtime")),
+            "relative": relative}
 
 
 def simplify(case):
@@ -217,6 +225,14 @@ def _canon_expected(ma):
 
 
 def run_case(case, exec_seed=None, exec_tape=None):
+    cwd = os.getcwd()
+    try:
+        return _run_case(case, exec_seed, exec_tape)
+    finally:
+        os.chdir(cwd)  # histories with a relative folder move the working directory around
+
+
+def _run_case(case, exec_seed=None, exec_tape=None):
     C.begin_case()
     tape = Tape(exec_seed) if exec_tape is None else Tape(recorded=exec_tape)
     viol, probes = [], {}
@@ -238,7 +254,9 @@ def run_case(case, exec_seed=None, exec_tape=None):
         steps = 0
 
         def make():
-            return cls(folder, m.ext, m.internal or None, m.smask if m.internal else None)
+            # "the same folder": with a relative path that is the path as seen from the current working directory
+            f = os.path.relpath(folder) if case.get("relative") else folder
+            return cls(f, m.ext, m.internal or None, m.smask if m.internal else None)
 
         idx = [0]
         arr_box = [None]
@@ -248,6 +266,14 @@ def run_case(case, exec_seed=None, exec_tape=None):
             """Run ops until a reopen-with-exit (which needs a new simulated process)."""
             if arr_box[0] is None:
                 arr_box[0] = make()
+            if state.get("crash") is not None:
+                info, state["crash"] = state["crash"], None
+                try:
+                    _after_crash(info)
+                except (Deadlock, StepCap):
+                    raise
+                except Exception as e:  # noqa: BLE001
+                    V("crash", f"restart-raised:{type(e).__name__}", {"exc": repr(e)[:300], "crashed_op": info["op"]}, {"frame": _frame(e)})
             ops = case["ops"]
             while idx[0] < len(ops) and not viol:
                 op = ops[idx[0]]
@@ -344,6 +370,40 @@ def run_case(case, exec_seed=None, exec_tape=None):
                     if (np.asarray(np.ma.getdata(arr.mask)).astype(bool) != m.ext_missing()).any():
                         V("invalid-key", "state-changed-by-rejected-key", {"step": i, "key": op["key"]})
                     del before
+                elif o == "chdir":
+                    d = os.path.join(root, f"cwd{i}")
+                    os.makedirs(d, exist_ok=True)
+                    os.chdir(d)
+                    probes["chdir"] = probes.get("chdir", 0) + 1
+                elif o in ("crash_dump", "crash_persist"):
+                    fs = state["sim"].fs
+                    info = {"op": op, "step": i, "before": m.copy_state(), "snapshot": m.snapshot}
+                    if o == "crash_dump":
+                        k = _key(op["key"])
+                        val = m.value(op["value"])
+                        sel = np.zeros(m.ext, dtype=bool)
+                        sel[k] = True
+                        info["elements"] = []
+                        for e in zip(*np.nonzero(sel)):
+                            e = tuple(int(x) for x in e)
+                            st = m.copy_state()
+                            old_missing, old_c = bool(m.ext_missing()[e]), canon(m.sub(e))
+                            m.dump(e, val)
+                            info["elements"].append((e, old_missing, old_c, canon(m.sub(e))))
+                            m.restore(st)
+                        info["value"] = val
+                    else:
+                        info["after"] = m.copy_state()
+                    state["crash"] = info
+                    fs.crash_at, fs.torn_bytes = fs.n + 1 + op["at"], op.get("torn")
+                    if o == "crash_dump":
+                        arr.dump(k, val)
+                    else:
+                        arr.persist()
+                    fs.crash_at = None
+                    info["completed"] = True  # the operation returned; the process dies right afterwards
+                    fs.do_crash("after " + o)
+                    raise SimCrash
                 elif o == "persist":
                     arr.persist()
                     m.snapshot = m.copy_state()
@@ -356,6 +416,46 @@ def run_case(case, exec_seed=None, exec_tape=None):
                 V("no-raise", f"{o}-raised:{type(e).__name__}", {"step": i, "op": op, "exc": repr(e)[:300], "full": case["full"], "mask": case["mask"]},
                   {"frame": _frame(e), "internal_before_external": _internal_before_external(case["mask"])})
 
+        def _after_crash(info):
+            """First thing after the restart that follows a crash inside dump/persist: every element is either what it
+            was or what the interrupted operation was writing - readable, never garbage, never lost."""
+            arr = arr_box[0]
+            op = info["op"]
+            if backend == "file_array":
+                if op["op"] != "crash_dump":
+                    return  # persist is a no-op for files: nothing may have changed (the next ops compare)
+                for e, old_missing, old_c, new_c in info["elements"]:
+                    lin = int(np.ravel_multi_index(e, m.ext))
+                    if not arr.has_index(lin):
+                        if not old_missing:
+                            V("crash", "element-lost-by-interrupted-dump", {"element": e, "crashed_op": op})
+                            return
+                        continue
+                    got = canon(arr.get_from_index(lin))
+                    if got == new_c:
+                        m.dump(e, info["value"])
+                        probes["interrupted_dump_took_effect"] = probes.get("interrupted_dump_took_effect", 0) + 1
+                    elif old_missing or got != old_c:
+                        V("crash", "element-neither-old-nor-new", {"element": e, "got": repr(got)[:200], "crashed_op": op})
+                        return
+                return
+            # dict backends: memory is gone; the persisted snapshot is the old one, or (crash inside persist) old or new
+            cands = [info["snapshot"]]
+            if op["op"] == "crash_persist":
+                cands.append(info["after"])
+            got_mask = np.asarray(np.ma.getdata(arr.mask)).astype(bool)
+            for c in cands:
+                if c is None:
+                    c = (np.empty(m.full, dtype=object), np.ones(m.full, dtype=bool))
+                m.restore(c)
+                if got_mask.shape == m.ext and not (got_mask != m.ext_missing()).any() and \
+                        canon(arr.to_array(splat_internal=bool(m.internal))) == canon(m.masked()):
+                    m.snapshot = None if c is cands[0] and info["snapshot"] is None else m.copy_state()
+                    if c is not cands[0]:
+                        probes["interrupted_persist_took_effect"] = probes.get("interrupted_persist_took_effect", 0) + 1
+                    return
+            V("crash", "state-after-interrupted-" + op["op"][6:] + "-is-neither-old-nor-new", {"crashed_op": op, "mask": got_mask.tolist()})
+
         def _reopen():
             probes["reopen"] = probes.get("reopen", 0) + 1
             if backend != "file_array":
@@ -365,20 +465,47 @@ def run_case(case, exec_seed=None, exec_tape=None):
                     m.restore(m.snapshot)
             arr_box[0] = make()
 
+        cwd0 = os.getcwd()
+        if case.get("relative"):
+            os.chdir(root)
+            probes["relative_folder"] = 1
         while idx[0] < len(case["ops"]) and not viol:
             sim = C.new_sim(tape, root, preempt=0.0)
             sim.fs.coarse_mtime = bool(case.get("coarse_mtime"))
             sim.fs.mtimes, sim.fs.mtime_now = mt_state["mtimes"], mt_state["now"]
             state["sim"] = sim
+            crashed = False
             with sim:
                 try:
                     sim.kernel.run(segment)
+                except SimCrash:
+                    crashed = True
                 except (Deadlock, StepCap) as e:
                     V("liveness", type(e).__name__, str(e))
             steps += sim.kernel.steps
             digests.append(sim.kernel.digest())
             mt_state["now"] = sim.fs.mtime_now  # file timestamps are durable state: they survive the process
             simmanager.shutdown_all(sim)  # process exit: manager processes die
+            if crashed and not viol:
+                probes["crash"] = probes.get("crash", 0) + 1
+                if sim.probes.get("torn_write"):
+                    probes["torn_write"] = probes.get("torn_write", 0) + 1
+                arr_box[0] = None
+                idx[0] += 1
+                if idx[0] >= len(case["ops"]):
+                    sim = C.new_sim(tape, root, preempt=0.0)
+                    state["sim"] = sim
+                    with sim:
+                        def tail2():
+                            segment()
+                            step({"op": "mask_linear"}, idx[0])
+                            step({"op": "index"}, idx[0])
+                        try:
+                            sim.kernel.run(tail2)
+                        except (Deadlock, StepCap) as e:
+                            V("liveness", type(e).__name__, str(e))
+                    simmanager.shutdown_all(sim)
+                continue
             if idx[0] < len(case["ops"]) and not viol:
                 # the pending op is a reopen after process exit
                 probes["process_exit"] = probes.get("process_exit", 0) + 1
@@ -404,6 +531,7 @@ def run_case(case, exec_seed=None, exec_tape=None):
                             V("liveness", type(e).__name__, str(e))
                     simmanager.shutdown_all(sim)
                     del case_ops_tail
+        os.chdir(cwd0)
     probes[f"backend:{backend}"] = 1
     if m.internal:
         probes["internal_axes"] = 1
